@@ -83,35 +83,43 @@ theorem balances_eq_projection_keyed (H : Bytes → Nat) (evs : List Ev) (hadm :
     total H s a = sumValues (getAllUnspent H s a) % M64 :=
   getAll_spec a (inv_all_histories H evs hadm) hon
 
+/-- The scriptPubKey of a supported address (type 0..4 with a 20/20/20/32/32-byte payload) is recognised
+    by Script2Idx with exactly the key GetAllUnspent uses for that address. -/
+theorem script_of_address_has_its_key (H : Bytes → Nat) (a : Addr) (hv : a.idx < 5)
+    (hl : a.payload.length = if a.idx < 3 then 20 else 32) :
+    script2idx H a.script = some (a.idx, H a.payload) :=
+  script2idx_script H a hv hl
+
 /-- Central theorem. After any admissible history (connects, disconnects, reorganisations, on/off,
-    build-from-populated), while the index is on, for every address `a`:
-    GetAllUnspent a = {o ∈ utxo | script o = script a ∧ value o ≥ min} (duplicate-free, same members) and
-    total a = Σ of it — provided the outputs currently in the set do not collide with `a` under the index
-    key (`hkey`: for stored outputs, "same (type, H payload) as a" ⇔ "same script as a"; this is
-    injectivity of the 64-bit address hash on the addresses in play) and the sum fits in 64 bits. -/
+    build-from-populated), while the index is on, for every supported address `a`:
+    GetAllUnspent a = {o ∈ utxo | script o = script a ∧ value o ≥ min} (duplicate-free, same members,
+    each with the right txid/vout/value/height/coinbase) and total a = Σ of it — provided
+    `hinj`: no output currently in the set has a script different from `a`'s with the same index key
+    (injectivity of the 64-bit address key (type, H payload) on the scripts in play), and
+    `hfit`: the sum fits in 64 bits (total supply < 2^64). -/
 theorem balances_eq_projection (H : Bytes → Nat) (evs : List Ev) (hadm : AdmissibleRun H State.init evs)
-    (a : Addr) (hon : (run H State.init evs).on = true)
-    (hkey : ∀ k r j o, aget k (run H State.init evs).utxo = some r → outAt r.outs j = some o →
-      (script2idx H o.script = some (a.idx, H a.payload) ↔ o.script = a.script))
+    (a : Addr) (hv : a.idx < 5) (hl : a.payload.length = if a.idx < 3 then 20 else 32)
+    (hon : (run H State.init evs).on = true)
+    (hinj : ∀ k r j o, aget k (run H State.init evs).utxo = some r → outAt r.outs j = some o →
+      script2idx H o.script = script2idx H a.script → o.script = a.script)
     (hfit : sumValues (getAllUnspent H (run H State.init evs) a) < M64) :
     let s := run H State.init evs
     (getAllUnspent H s a).Nodup ∧
     (∀ x, x ∈ getAllUnspent H s a ↔ Pays s.cfg.min s.utxo a x) ∧
     total H s a = sumValues (getAllUnspent H s a) := by
   obtain ⟨hn, hm, ht⟩ := balances_eq_projection_keyed H evs hadm a hon
+  have hkey := script2idx_script H a hv hl
   refine ⟨hn, ?_, by rw [ht]; exact Nat.mod_eq_of_lt hfit⟩
   intro x
   rw [hm x]
   unfold Pays
   constructor
   · rintro ⟨r, o, hr, ho, hmin, hs, hx⟩
-    exact ⟨r, o, hr, ho, hmin, (hkey _ r _ o hr ho).1 hs, hx⟩
+    exact ⟨r, o, hr, ho, hmin, hinj _ r _ o hr ho (by rw [hs, hkey]), hx⟩
   · rintro ⟨r, o, hr, ho, hmin, hs, hx⟩
-    exact ⟨r, o, hr, ho, hmin, (hkey _ r _ o hr ho).2 hs, hx⟩
--- OPEN: `hkey` should follow from injectivity of `H` on the payloads in play alone; that needs the two
--- script-form lemmas `scriptForm a.script = some (a.idx, a.payload)` and
--- `scriptForm s = some (i, p) → s = Addr.script ⟨i, p⟩` (byte-level, not yet proved; the harness
--- compares the model's scriptForm with wallet.Script2Idx and uses script equality in its own projection).
+    exact ⟨r, o, hr, ho, hmin, by rw [hs, hkey], hx⟩
+-- OPEN (optional strengthening): derive `hinj` from injectivity of `H` on the payloads in play alone; needs
+-- the converse byte-level lemma `scriptForm s = some (i, p) → s = Addr.script ⟨i, p⟩`.
 
 /-! ### non-vacuity -/
 
@@ -133,6 +141,9 @@ example : (run exH State.init exEvs).on = true := by decide +kernel
 example : getAllUnspent exH (run exH State.init exEvs) exAddr =
     [{ txid := List.replicate 32 7, vout := 0, value := 10, minedAt := 5, coinbase := false }] := by decide +kernel
 example : total exH (run exH State.init exEvs) exAddr = 10 := by decide +kernel
+example : sumValues (getAllUnspent exH (run exH State.init exEvs) exAddr) < M64 := by decide +kernel
+example : exAddr.idx < 5 ∧ exAddr.payload.length = (if exAddr.idx < 3 then 20 else 32) := by decide +kernel
+example : script2idx exH exAddr.script = some (2, 20) := by decide +kernel
 example : Inv exH State.init := inv_init exH
 example : Rel { min := 0, useMapCnt := 0 } exH [] (fun _ => none) := rel_empty _ _
 example : qual { min := 5, useMapCnt := 2 } exH exOut0 (2, 20) := by
